@@ -161,6 +161,13 @@ SEPS = [' ', '\n', ' /*a\u2028b\u2029*/ ', '\r\n', ' /*c*/ ', '  // x\n']
 def main(run, tier):
     from . import parsefwd
     parsefwd.add(run, tier, positions=True)
+    # positions are counted with the lexer's line-terminator patterns: their obligations (C06) are imported
+    from . import c06 as _c06
+    _c06.class_obligations(run, importlib.import_module('calmjs.parse.lexers.es5'))
+    # a fragment's source file comes from the walker's source stack: nothing of it may outlive a walk (ownership obligations of C14)
+    from .c14 import frame_obligations as _fo
+    import contracts.frames as _cf
+    _fo(run, _cf.C14, 'C14')
     g = core.G()
     shapes = core.Shapes(g)
     pr = printing.Printing(g)
